@@ -36,7 +36,7 @@ type c11Exec struct {
 }
 
 type c11Stats struct {
-	dedupeRemovals, dedupeCalls, completeChecks, completeTrue, consistencyChecks, maxNodesSeen, maxDepthSeen int
+	dedupeRemovals, dedupeCalls, dedupeSpellingPairs, completeChecks, completeTrue, consistencyChecks, maxNodesSeen, maxDepthSeen int
 	finalShapes                                                                                              *vc.Distinct
 }
 
@@ -142,6 +142,31 @@ func nonSeedURLs(seed *models.Item) map[string]int {
 		}
 	})
 	return m
+}
+
+// c11Spellings: URLs a page can spell in several ways that the crawler's canonical form (URL.String) identifies;
+// "one node per URL" is judged on the canonical form, whatever the spelling found in the document.
+var c11Spellings = []string{
+	"http://h.example/v?k=a%20b", "http://h.example/v?k=a+b",
+	"http://h.example/w?x=1&&y=2", "http://h.example/w?x=1&y=2",
+	"http://h.example/z?q=%41", "http://h.example/z?q=A",
+	"http://h.example/t?", "http://h.example/t",
+}
+
+// c11HasSpellingPair reports whether two non-seed nodes share a canonical URL under different raw spellings.
+func c11HasSpellingPair(seed *models.Item) (found bool) {
+	raws := map[string]string{}
+	seed.Traverse(func(it *models.Item) {
+		if it.GetParent() == nil {
+			return
+		}
+		k := it.GetURL().String()
+		if r, ok := raws[k]; ok && r != it.GetURL().Raw {
+			found = true
+		}
+		raws[k] = it.GetURL().Raw
+	})
+	return
 }
 
 // run executes one pipeline-shaped history; returns false on violation.
@@ -274,6 +299,9 @@ func (e *c11Exec) preprocess(seed *models.Item) bool {
 		}
 	}
 	before := nonSeedURLs(seed)
+	if c11HasSpellingPair(seed) {
+		e.stats.dedupeSpellingPairs++
+	}
 	nBefore := c11Count(seed)
 	drawBefore := ""
 	drawBefore = c11Draw(seed)
@@ -445,6 +473,11 @@ func c11(r *vc.Run) int {
 	for i := 0; i < nB; i++ {
 		rng := r.Rand("B", i)
 		e := &c11Exec{urls: bigPool[:2+rng.Intn(10)], maxNodes: 8 + rng.Intn(190), maxKids: 1 + rng.Intn(8), maxPass: 8, stats: stats}
+		if i%2 == 1 { // every other history also draws from URLs with several spellings of one canonical form
+			vr := r.Rand("Bspell", i)
+			k := 2 * (1 + vr.Intn(len(c11Spellings)/2))
+			e.urls = append(append([]string(nil), e.urls[:1+vr.Intn(len(e.urls))]...), c11Spellings[:k]...)
+		}
 		e.choose = func(n int) int {
 			if n <= 1 {
 				return 0
@@ -472,7 +505,7 @@ func c11(r *vc.Run) int {
 		"samples":             samples.List(),
 		"exhaustive":          exhaustive,
 		"part_A":              map[string]any{"scope": scopeA, "executions": execsA, "exhaustive": exhaustive, "distinct_final_trees": shapesA},
-		"part_B":              map[string]any{"histories": nB},
+		"part_B":              map[string]any{"histories": nB, "dedupe_calls_with_two_spellings_of_one_url": stats.dedupeSpellingPairs, "spellings": c11Spellings},
 		"part_C":              map[string]any{"trees": treesC, "assignments": assignmentsC, "completion_oracle_applied": checkedC},
 		"part_D":              map[string]any{"trees": treesD, "cases": casesD, "cases_with_duplicates": dupCasesD, "rule": "every rooted ordered tree of up to 4 nodes x every status assignment that passes CheckConsistency x every assignment of the leaf URLs from {X, Y} (+ a third letter in the thorough tier); inner nodes have URLs of their own; after DedupeItems: structure well-formed, exactly one non-seed node per URL, no URL lost"},
 		"dedupe_calls":        stats.dedupeCalls,
